@@ -79,6 +79,26 @@ CHECKS = {
         technique='bit-precise symbolic execution of the MIR of resize_stamp/add_count/help_transfer/try_presize/transfer into z3 (all 31 legal lengths, cvc5 cross-check) + mode-B end-to-end resizes with symbolic keys; native replay',
         text='Part 1: for every legal table length the stamp is negative after the shift, survives +2..+MAX_RESIZERS, differs from every other length in the high half; a resize is initiated with rs+2, helpers register with +1 and never once the finisher is chosen (rs+1) or the limit is reached; a leaving thread decrements by one and exactly the one that saw rs+2 finishes; strides are >= 16; the finisher publishes 0.75 of the new length for every old length. Part 3: in the concrete-heap interpreter tables of 2..64 bins grow by inserts/reserve with symbolic keys: exact doubling at exactly the threshold, placement, threshold, nothing left behind, drop(map) passes. ',
         note='NOT decided: claiming/joining/leaving under real interleavings of several helpers (part 2 of the design was not built): overlap of generations under contention is outside this check (see DESIGN.md §7 finding F6 for what the mutation agents observed on the unchanged tree).'),
+    'C01': dict(
+        level='model_checking', design='DESIGN.md §4 C01',
+        technique="bounded interleaving exploration on the real MIR: several logical threads run flurry's own MIR in the concrete-heap interpreter (fv/conc.py), every atomic access / lock / park is a scheduling point, one schedule variable per step decided through the z3-backed decision mechanism, context-bounded (<= 2-3 preemptions), depth-first by re-execution; linearizability + ledger + quiescence oracles",
+        text='2 (thorough: 3) logical threads execute real get/insert/try_insert/remove/compute_if_present/clear/reserve calls on a shared map; all schedules within the preemption bound are explored. Every history must have a sequential order respecting real time that reproduces each result and the final contents; no reclaimed memory may be touched, no thread may be left unable to move, and the structure must be well formed once all threads have left. Shapes: empty-bin CAS publication, list bins, 2->4-bin resizes under way, tree bins, a tree bin split by a 64->128 resize, a tree bin being untreeified.',
+        note='Bounded: 2-3 threads, 1-2 operations each, <= 2 (3) preemptions, concrete keys, sequentially consistent interleavings (memory-order effects: C15). Schedule-dependent witnesses are replayed deterministically in the interpreter, not natively (forcing a native schedule would need instrumentation of every atomic access) - stated exception, DESIGN.md §3.5.'),
+    'C08': dict(
+        level='model_checking', design='DESIGN.md §4 C08',
+        technique="bounded interleaving exploration on the real MIR: several logical threads run flurry's own MIR in the concrete-heap interpreter (fv/conc.py), every atomic access / lock / park is a scheduling point, one schedule variable per step decided through the z3-backed decision mechanism, context-bounded (<= 2-3 preemptions), depth-first by re-execution; linearizability + ledger + quiescence oracles",
+        text='compute_if_present races with compute_if_present, a replacing insert, remove and a resize on the same key in list bins and tree bins (incl. a tree bin split by a resize); all schedules within the preemption bound. The remapping function must run at most once per call and the history - in which each compute records the value instance it was given and the one it produced - must be linearizable (a lost update or a result replacing a value the function never saw is a non-linearizable history).',
+        note='Bounds and replay exception as C01.'),
+    'C11': dict(
+        level='model_checking', design='DESIGN.md §4 C11',
+        technique="SMT reachability over MIR CFGs (one bin lock at a time, call graph to a fixed point) + bounded interleaving exploration on the real MIR: several logical threads run flurry's own MIR in the concrete-heap interpreter (fv/conc.py), every atomic access / lock / park is a scheduling point, one schedule variable per step decided through the z3-backed decision mechanism, context-bounded (<= 2-3 preemptions), depth-first by re-execution; linearizability + ledger + quiescence oracles",
+        text="(1) z3 decides on every locking function's CFG that no second bin lock and no blocking helper is reachable, directly or through any callee/closure, while a bin lock is held (no cyclic waiting). (2) Interleavings on the real MIR: tree-bin reader/writer protocol (lock_root/contended_lock/park/unpark vs TreeBin::find readers), table-initialisation races, insert/remove/get/clear racing with a resize: in every schedule within the bound every thread finishes (a state where no thread can move = deadlock/lost wakeup; > 1500 scheduling points = livelock), lock words return to 0, histories are linearizable.",
+        note='Fairness is modelled as: a spin hands the processor to another enabled thread. Bounds: 2-3 threads, <= 2 (3) preemptions; in the 3-thread quick scenarios loads are not scheduling points. Livelock among CAS retry loops under adversarial fair schedules beyond the bound is outside.'),
+    'C15': dict(
+        level='model_checking', design='DESIGN.md §9.3 / §4 C15',
+        technique='axiomatic memory-model query (RC11 fragment: po, rf, release/acquire sw, hb by justified transitive closure) per publication site, decided by z3 (cvc5 cross-check); store orderings, receivers, privacy and root-lock regions extracted from the MIR of the current tree',
+        text='Every store/swap/compare_exchange on a pointer cell (incl. the Table::store_bin/cas_bin wrappers) is read from the MIR with the ordering it passes; for each site z3 decides whether an execution exists in which a guarded (SeqCst) reader obtains the stored pointer without the initialisation of the pointee happening-before its access. Stores weaker than Release are admitted only where a further query establishes that the receiver is still private to the storing function and published later by a release store, or that the store executes inside the tree bin root-lock region (lock_root..unlock_root, a path obligation), or that the cell is owned (teardown).',
+        note='Bounded axiomatic model: <= 6 events and 2 threads per graph, one graph per publication site (a three-thread chain writer -> copier -> reader is two sites); no fences / release sequences; seize\'s protect is taken to load SeqCst as its source says. Privacy is a conservative intraprocedural taint. A weak-memory witness cannot be exhibited on x86: the report is the event graph with file:line (stated exception, DESIGN.md §9.2).'),
 }
 
 NOT_APPLICABLE = {
